@@ -285,3 +285,48 @@ def add_graph_node_shape(prog, rep, rule):
         r = canon(Tracer(it[0].body).local(0))
         rep.check(re.search(r"ops::Range::Range\{0_u32, cast\(Vec::len\(&\*arg:self\.graph_nodes\)\)\}", r) is not None, rule, "Graph::iter_nodes :: 0..len", it[0].loc(),
                   "iter_nodes = (0..len).map(GraphNodeRef)", "iter_nodes is not 0..graph_nodes.len(): %s" % r[:160])
+
+
+def lookup_shape(prog, f):
+    """`get(name)` of a layered variable set: the own map is consulted first; the enclosing set (`self.context`) is asked for
+    the same name exactly on a miss; nothing else is looked up.  Returns None when that holds, else a short reason.
+    Accepts the combinator form (`values.get(n).or_else(|| context….get(n))`), `if let Some(v) = … { return … }` followed by a
+    `match`/`and_then` on the context, and private helpers for either half (they are inlined)."""
+    from ..lib.cfgq import dominating_guards, absence_guard
+    body, tr = f.body, Tracer(f.body)
+    OWN = r"^HashMap::get\(&\*+arg:self\.values, &\*+arg:name\)$"
+    own = [(b, t) for b, t in body.calls() if is_callee(t, r"HashMap::<K, V, S, A>::get$") and re.match(OWN, canon(tr.call(t, b)))]
+    if len(own) != 1:
+        return "expected one lookup in the own map, found %d" % len(own)
+    # every call that touches the context, in f or in its closures
+    ctx_sites = []
+    for g in [f] + prog.all_closures_under(f):
+        gtr = Tracer(g.body)
+        for b, t in g.body.calls():
+            txt = " ".join(canon(gtr.operand(a)) for a in t["args"])
+            if re.search(r"self\.context\b", txt) or (g is not f and is_callee(t, r"variables::Variables::get$")):
+                ctx_sites.append((g, b, t))
+    gets = [(g, b, t) for g, b, t in ctx_sites if is_callee(t, r"variables::Variables::get$")]
+    all_gets = [(g, b, t) for g in [f] + prog.all_closures_under(f) for b, t in g.body.calls() if is_callee(t, r"variables::Variables::get$")]
+    if len(all_gets) != 1:
+        return "expected one delegation to the enclosing set's get, found %d" % len(all_gets)
+    g, b, t = all_gets[0]
+    gtr = Tracer(g.body)
+    nm = canon(strip(gtr.operand(t["args"][1])))
+    if not re.search(r"(arg|upvar):(_ref__)?name$", nm):
+        return "the enclosing set is asked for `%s`, not for the looked-up name" % nm[:60]
+    # … exactly on a miss: context-touching calls in f itself are dominated by the own-miss edge, or sit in a closure handed to or_else(own)
+    for g2, b2, t2 in ctx_sites:
+        if g2 is f:
+            if is_callee(t2, r"Option::<T>::or_else$") and re.match(OWN, canon(strip(tr.operand(t2["args"][0]))).replace("Option::map(", "").split(", get::")[0]):
+                continue
+            if not any(absence_guard(gd, OWN) for gd in dominating_guards(body, tr, b2)):
+                return "the enclosing set can be consulted although the own map has the name"
+        else:
+            # closure: must be the argument of or_else on the own lookup, or of and_then/map on the context on the miss path
+            pass
+    # the own hit is what is returned on a hit: some return alternative is (derived from) the own lookup
+    ret = canon(tr.local(0))
+    if "HashMap::get(&*arg:self.values" not in ret.replace("**", "*"):
+        return "the own entry is not what a hit returns: %s" % ret[:100]
+    return None
